@@ -64,14 +64,16 @@ pub fn gid_map(font: &Font) -> Result<BTreeMap<String, u16>, String> {
     Ok(font.glyph_names()?.into_iter().enumerate().map(|(i, n)| (n, i as u16)).collect())
 }
 
-pub fn check_outlines(ctx: &Ctx, genome: &[u16]) -> CaseReport { check_outlines_route(ctx, genome, false) }
+pub fn check_outlines(ctx: &Ctx, genome: &[u16]) -> CaseReport { check_outlines_route(ctx, genome, false, false) }
+/// component-heavy designs (the profile of the component-option check): nested, transformed and non-export components
+pub fn check_outlines_composites(ctx: &Ctx, genome: &[u16]) -> CaseReport { check_outlines_route(ctx, genome, false, true) }
 /// the same property through the Glyphs front end: the model written as Glyphs 3 text (one layer per master,
 /// intermediate layers with full or partial coordinates)
-pub fn check_outlines_glyphs(ctx: &Ctx, genome: &[u16]) -> CaseReport { check_outlines_route(ctx, genome, true) }
+pub fn check_outlines_glyphs(ctx: &Ctx, genome: &[u16]) -> CaseReport { check_outlines_route(ctx, genome, true, false) }
 
-fn check_outlines_route(ctx: &Ctx, genome: &[u16], glyphs_route: bool) -> CaseReport {
+fn check_outlines_route(ctx: &Ctx, genome: &[u16], glyphs_route: bool, heavy: bool) -> CaseReport {
     let mut rep = CaseReport::default();
-    let mut f = SynthFont::decode(genome, &if glyphs_route { Profile { point_axis: false, vertical: false, maps: false, min_axes: 1, ..Profile::outlines() } } else { Profile { point_axis: true, ..Profile::outlines() } });
+    let mut f = SynthFont::decode(genome, &if glyphs_route { Profile { point_axis: false, vertical: false, maps: false, min_axes: 1, ..Profile::outlines() } } else if heavy { crate::props::c12::profile() } else { Profile { point_axis: true, ..Profile::outlines() } });
     let mut glyphs_text = None;
     if glyphs_route {
         let tail = &genome[genome.len().saturating_sub(12)..genome.len().saturating_sub(2)];
@@ -310,6 +312,7 @@ pub fn parts_c03() -> Vec<Part> {
     vec![
         Part { name: "outlines", genome_len: 1400, cases_quick: 1000, cases_thorough: 12000, threads: 12, max_shrink_iters: 250, check: Box::new(check_outlines), remote: None },
         Part { name: "outlines-glyphs", genome_len: 1400, cases_quick: 500, cases_thorough: 6000, threads: 12, max_shrink_iters: 250, check: Box::new(check_outlines_glyphs), remote: None },
+        Part { name: "outlines-composites", genome_len: 1400, cases_quick: 500, cases_thorough: 6000, threads: 12, max_shrink_iters: 250, check: Box::new(check_outlines_composites), remote: None },
     ]
 }
 pub fn parts_c04() -> Vec<Part> {
@@ -319,6 +322,6 @@ pub fn parts_c04() -> Vec<Part> {
     ]
 }
 
-pub const RULE_C03: &str = "two routes: designspace+UFO3, and (part outlines-glyphs) the same kind of model written as Glyphs 3 text with one layer per master and intermediate layers given by full or partial coordinates. genome -> SynthFont (1-3 axes, default + axis extremes + up to 5 intermediate/corner/interior masters, optional glyph-only layer sources and sparse glyphs; line / quadratic (1 or 2 off-curves per segment) / cubic outlines with per-master jitter and scaling; nested, transformed, mixed and non-export components) written as designspace+UFO3 and compiled in-process; every exported glyph is instantiated at each of its own source locations with an independent gvar evaluator (tuple scalars + IUP) and compared with the model drawing. non-trivial = some glyph has a non-default source whose resolved drawing differs from the default; distinct = hash of the model";
+pub const RULE_C03: &str = "two routes: designspace+UFO3, and (part outlines-glyphs) the same kind of model written as Glyphs 3 text with one layer per master and intermediate layers given by full or partial coordinates; part outlines-composites uses the component-heavy profile of the component-option check (most glyphs composite, nested / transformed / non-export components) on the UFO route. genome -> SynthFont (1-3 axes, default + axis extremes + up to 5 intermediate/corner/interior masters, optional glyph-only layer sources and sparse glyphs; line / quadratic (1 or 2 off-curves per segment) / cubic outlines with per-master jitter and scaling; nested, transformed, mixed and non-export components) written as designspace+UFO3 and compiled in-process; every exported glyph is instantiated at each of its own source locations with an independent gvar evaluator (tuple scalars + IUP) and compared with the model drawing. non-trivial = some glyph has a non-default source whose resolved drawing differs from the default; distinct = hash of the model";
 pub const RULE_C04: &str = "same fonts as C03 (part advances-glyphs: the advance checks through the Glyphs 3 route); per glyph x source location: hmtx+HVAR (own ItemVariationStore evaluator) vs rounded source advance (<=1), vs gvar phantom points (<=1), vmtx+VVAR when vertical metrics are built; per MVAR-tagged metric x master: table value + MVAR delta vs rounded fontinfo value (<=1), exact at default. non-trivial = an advance or a metric differs between masters";
 pub const ASSUMPTIONS: &[&str] = &["master locations and region peaks are dyadic so F2Dot14 quantisation is exact", "composites kept as composites are compared with 3 units per nesting level of slack (base points are rounded before the 2x2 is applied); decomposed glyphs and simple glyphs use the bound of the statement", "cubic sources are compared by sampled Hausdorff distance with upem/1000 (cu2qu tolerance) + 1.5 sampling slack", "glyphs whose components lack a source at the location are compared by component offsets only"];
